@@ -25,18 +25,18 @@ import (
 var authEpoch = time.Date(2030, 1, 1, 0, 0, 0, 0, time.UTC)
 
 type authHostCfg struct {
-	Host      string `json:"host"`
-	Scheme    string `json:"scheme"`    // bearer, basic, both-bearer-first, both-basic-first, none, raw (use RawChallenge)
-	Challenge string `json:"challenge"` // scope mode of the bearer challenge: exact, wider, narrower, unrelated, empty, unparsable
+	Host      string   `json:"host"`
+	Scheme    string   `json:"scheme"`    // bearer, basic, both-bearer-first, both-basic-first, none, raw (use RawChallenge)
+	Challenge string   `json:"challenge"` // scope mode of the bearer challenge: exact, wider, narrower, unrelated, empty, unparsable
 	RawChal   []string `json:"raw_challenge,omitempty"`
-	Creds     string `json:"creds"` // none, basic, refresh, static
-	FailCfg   bool   `json:"config_lookup_fails,omitempty"`
+	Creds     string   `json:"creds"` // none, basic, refresh, static
+	FailCfg   bool     `json:"config_lookup_fails,omitempty"`
 	// token server
-	TokenMode string `json:"token_mode"` // grant, ceiling (refuses scopes wider than one repository pull/push), nopost (404 on POST)
-	Lifetime  int    `json:"lifetime"`   // expires_in; 0 = omitted (default 60 s)
-	LifetimePattern []int `json:"lifetime_pattern,omitempty"` // if set, the k-th issued token gets LifetimePattern[k mod len] (0 = omitted)
-	TokenFault string `json:"token_fault,omitempty"` // "", 401, 403, 500, 302, badjson, notoken, empty200
-	RealmHost string `json:"realm_host,omitempty"` // default auth-<host>
+	TokenMode       string `json:"token_mode"`                 // grant, ceiling (refuses scopes wider than one repository pull/push), nopost (404 on POST)
+	Lifetime        int    `json:"lifetime"`                   // expires_in; 0 = omitted (default 60 s)
+	LifetimePattern []int  `json:"lifetime_pattern,omitempty"` // if set, the k-th issued token gets LifetimePattern[k mod len] (0 = omitted)
+	TokenFault      string `json:"token_fault,omitempty"`      // "", 401, 403, 500, 302, badjson, notoken, empty200
+	RealmHost       string `json:"realm_host,omitempty"`       // default auth-<host>
 }
 
 type issuedToken struct {
@@ -61,17 +61,17 @@ type sentReq struct {
 }
 
 type authNet struct {
-	hosts   map[string]*authHostCfg // registry hosts
-	realms  map[string]*authHostCfg // realm host -> registry config it serves
-	now     time.Time
-	issued  []*issuedToken
-	sent    []sentReq
-	trip    int
-	ntok    int
-	basicSeen map[string]bool // registry host -> has sent a Basic challenge
-	named   map[string]map[string]bool // registry host -> realm hosts it has named in a challenge
-	tripHost map[int]string // registry host a RoundTrip of the harness is addressed to (token attribution)
-	curTrip  int
+	hosts     map[string]*authHostCfg // registry hosts
+	realms    map[string]*authHostCfg // realm host -> registry config it serves
+	now       time.Time
+	issued    []*issuedToken
+	sent      []sentReq
+	trip      int
+	ntok      int
+	basicSeen map[string]bool            // registry host -> has sent a Basic challenge
+	named     map[string]map[string]bool // registry host -> realm hosts it has named in a challenge
+	tripHost  map[int]string             // registry host a RoundTrip of the harness is addressed to (token attribution)
+	curTrip   int
 }
 
 // secrets are unique per host and never substrings of one another
